@@ -197,10 +197,12 @@ def stress_run(arg):
         th_ = threading.Thread(target=drain)
         th_.start()
     xargs = (["--ancestor", opts["ancestor"]] if opts.get("ancestor") else []) + (["--nullargv"] if opts.get("nullargv") else []) + (["--canary"] if opts.get("canary") else []) + (["--stack", str(opts["stack"])] if opts.get("stack") else [])
+    pr = subprocess.Popen([exe, "--mount", "%s:%s" % (conf, SYSCONF), "--threads", str(nt), "--calls", str(ncalls), "--seed", str(seed), "--out", os.path.join(work, "issued")] + xargs,
+                          env=env, stdout=subprocess.PIPE, stderr=subprocess.PIPE, cwd=work)
     try:
-        r = subprocess.run([exe, "--mount", "%s:%s" % (conf, SYSCONF), "--threads", str(nt), "--calls", str(ncalls), "--seed", str(seed), "--out", os.path.join(work, "issued")] + xargs,
-                           env=env, capture_output=True, timeout=opts.get("timeout", 1800), cwd=work)
-    except subprocess.TimeoutExpired:
+        so, se = pr.communicate(timeout=opts.get("timeout", 1800))
+        r = subprocess.CompletedProcess(pr.args, pr.returncode, so, se)
+    except subprocess.TimeoutExpired:        # (the process is still there: look at it before it is killed)
         # are the threads all parked in a lock wait (one of them left the library with its mutex held), or is the run just slow?
         from vlib.drive import kill_stragglers
         states = []
@@ -217,6 +219,8 @@ def stress_run(arg):
                         states.append(f.read().split()[0])
             except OSError:
                 continue
+        pr.kill()
+        pr.communicate()
         kill_stragglers(work)
         F = Findings(PROP)
         wit = dict(kind=kind, threads=nt, calls=ncalls, format=fmt, output=out, seed=seed, filter_chain=chain, options=opts, task_syscalls=states[:40])
